@@ -153,6 +153,95 @@ def empty_support(ctx, core, reg):
               replay=lambda m: replay_empty(m, ct, nt))
 
 
+def symbolic_column_type(reg):
+    ct, nt = reg.get("ColumnType"), reg.get("NativeType")
+    kind, nat = z3.BitVec("column_type_variant", 64), z3.BitVec("native_type", 64)
+    pre = [z3.Or([kind == v[1] for v in ct.variants]), z3.Or([nat == v[1] for v in nt.variants])]
+    payloads = {}
+    for vname, d, fields in ct.variants:
+        payloads[d] = Tup([Enum(Int(nat, 64, True), {}, nt.variant_map(), nt.name)]) if vname == "Native" else Tup([Opaque(f"{vname}.{f}") for f in fields])
+    refused = z3.Or([z3.And(kind == ct.discr("Native"), nat == nt.discr(n)) for n in NOT_EMPTIABLE_NATIVES] + [kind == ct.discr(k) for k in NOT_EMPTIABLE_KINDS])
+    return Enum(Int(kind, 64, True), payloads, ct.variant_map(), ct.name), kind, nat, pre, refused
+
+
+def maybe_empty_carrier(ctx, core, reg):
+    """<MaybeEmpty<T> as SerializeValue>::serialize and <MaybeEmpty<T> as DeserializeValue>::type_check from their MIR, T's own methods most general."""
+    me = reg.get("MaybeEmpty")
+    name = "c17_maybe_empty_writes_nothing_when_refused_and_defers_to_the_carrier_otherwise"
+    if not ctx.skip(name):
+        fn = core.find_by_callee("<MaybeEmpty<T> as SerializeValue>::serialize")
+        typ, kind, nat, pre, refused = symbolic_column_type(reg)
+        junk = [z3.BitVec(f"carrier_byte{i}", 8) for i in range(2)]
+        ok, is_value = z3.Bool("carrier_serializes"), z3.Bool("holds_a_value")
+        m = models(junk, ok, [0])
+        def set_value(it, p, callee, args):
+            buf = sm.deref(args[0].f[0]); data = sm.deref(args[1]) if isinstance(args[1], Ref) else args[1]
+            if isinstance(data, Tup) and len(data.f) == 3 and isinstance(data.f[0], Ref):           # slice view of an array literal: (array, start, len)
+                st, ln = z3.simplify(data.f[1].t), z3.simplify(data.f[2].t)
+                if not (z3.is_bv_value(st) and z3.is_bv_value(ln)):
+                    raise mir.Unsupported("set_value of a slice with symbolic bounds")
+                elems = sm.deref(data.f[0]).f[st.as_long():st.as_long() + ln.as_long()]
+            elif isinstance(data, Seq):
+                elems = data.items
+            else:
+                raise mir.Unsupported(f"set_value of a non-literal slice: {type(data).__name__} {data!r:.200}")
+            n = len(elems)
+            buf.items.extend([Int(bv(b, 8), 8, False) for b in n.to_bytes(4, "big")] + [mir.copy_value(x) for x in elems])
+            return Enum(Int(bv(0, 64), 64, True), {0: Tup([Opaque("proof")])}, RESULT, "Result")
+        m[r"^CellWriter::<'_>::set_value$"] = set_value
+        m[r"^Result::<WrittenCellProof<'_>, CellOverflowError>::unwrap$"] = lambda it, p, c, a: a[0].payloads[0].f[0]
+        m[r"mk_typck_err::<"] = sm.m_opaque("typck-error")
+        m[r"^(std::result::)?Result::<.*>::map_err::<"] = lambda it, p, c, a: Enum(a[0].discr, {**a[0].payloads, 1: Tup([Opaque("mapped-error")])}, RESULT, "Result")
+        buf = Cell(Seq([]))
+        val = Enum(Int(z3.If(is_value, bv(me.discr("Value"), 64), bv(me.discr("Empty"), 64)), 64, True), {me.discr("Value"): Tup([Opaque("carrier")])}, me.variant_map(), me.name)
+        it = mir.Interp(core, mir.BVBackend(), m, inline=[r"supports_special_empty_value$"], registry=reg, max_steps=4000)
+        paths = it.run(fn, [Ref(Cell(val)), Ref(Cell(typ)), Tup([Ref(buf)], "CellWriter")], pre)
+        goals, cover = [], []
+        for p in paths:
+            pc = z3.And(p.pc[len(pre):]) if len(p.pc) > len(pre) else z3.BoolVal(True)
+            if p.outcome[0] != "return":
+                goals.append(z3.Not(pc)); continue
+            cover.append(pc)
+            r = p.outcome[1]
+            items = sm.deref(p.locals[3].v.f[0]).items
+            wrote = lambda bs: z3.And([z3.BoolVal(len(items) == len(bs))] + ([x.t == b for x, b in zip(items, bs)] if len(items) == len(bs) else []))
+            goals.append(z3.Implies(pc, z3.And(
+                z3.Implies(z3.And(refused, z3.Not(is_value)), z3.And(r.discr.t == 1, wrote([]))),
+                z3.Implies(z3.And(z3.Not(refused), z3.Not(is_value)), z3.And(r.discr.t == 0, wrote([bv(0, 8)] * 4))),
+                z3.Implies(z3.And(z3.Not(refused), is_value), z3.And((r.discr.t == 0) == ok, wrote(junk))),
+                z3.Implies(z3.And(refused, is_value), z3.Implies(r.discr.t == 0, z3.And(ok, wrote(junk)))))))
+        goals.append(z3.Or(cover) if cover else z3.BoolVal(False))
+        ctx.prove(name, pre, z3.And(goals), inputs=[kind, nat, is_value, ok] + junk,
+                  functions=f"<MaybeEmpty<T> as SerializeValue>::serialize [scylla-cql-core/src/serialize/value.rs], ColumnType::supports_special_empty_value [{RESULT_RS}]",
+                  bounds="column type: any ColumnType variant x any native type (symbolic); value: Empty or Value(carrier), the carrier's serializer most general (writes 2 arbitrary bytes, then Ok or Err): "
+                         "Empty bound to a column type without an empty value gets Err and NOT ONE BYTE in the buffer; otherwise Empty writes exactly the 0-length cell 00 00 00 00; Value is exactly what "
+                         "the carrier wrote with the carrier's verdict (for a column type without an empty value the code refuses earlier — only 'Ok implies the carrier said Ok and wrote these bytes' "
+                         "is demanded there, since every built-in Emptiable carrier refuses those types itself); no panic",
+                  backend="BV", assumes=LIB + "; CellWriter::set_value of a literal slice = 4-byte big-endian length + bytes", witness=True,
+                  outside="the carriers themselves (engine K's matrix)", replay=lambda m_: replay_empty(m_, reg.get("ColumnType"), reg.get("NativeType")))
+    name = "c17_maybe_empty_type_check_is_the_carriers_type_check"
+    if not ctx.skip(name):
+        fn = core.find_by_callee("<MaybeEmpty<T> as DeserializeValue>::type_check")
+        typ, kind, nat, pre, refused = symbolic_column_type(reg)
+        t_ok = z3.Bool("carrier_type_check_passes")
+        m = {r"^<T as DeserializeValue<'_, '_>>::type_check$": lambda it, p, c, a: Enum(Int(z3.If(t_ok, bv(0, 64), bv(1, 64)), 64, True), {0: Tup([Unit()]), 1: Tup([Opaque("typck-error")])}, RESULT, "Result"),
+             r"^(std::result::)?Result::<.*>::map_err::<": lambda it, p, c, a: Enum(a[0].discr, {**a[0].payloads, 1: Tup([Opaque("mapped-error")])}, RESULT, "Result")}
+        it = mir.Interp(core, mir.BVBackend(), m, registry=reg, max_steps=2000)
+        paths = it.run(fn, [Ref(Cell(typ))], pre)
+        goals, cover = [], []
+        for p in paths:
+            pc = z3.And(p.pc[len(pre):]) if len(p.pc) > len(pre) else z3.BoolVal(True)
+            if p.outcome[0] != "return":
+                goals.append(z3.Not(pc)); continue
+            cover.append(pc)
+            goals.append(z3.Implies(pc, (p.outcome[1].discr.t == 0) == t_ok))
+        goals.append(z3.Or(cover) if cover else z3.BoolVal(False))
+        ctx.prove(name, pre, z3.And(goals), inputs=[kind, nat, t_ok],
+                  functions="<MaybeEmpty<T> as DeserializeValue>::type_check [scylla-cql-core/src/deserialize/value.rs]",
+                  bounds="any column type (variant x native symbolic), the carrier's type_check most general (Ok or Err): MaybeEmpty<T> is type-checked exactly as T is — it never widens what T accepts; no panic",
+                  backend="BV", assumes="Result::map_err keeps the discriminant", witness=True, outside="MaybeEmpty::deserialize (empty slice -> Empty)")
+
+
 def replay_empty(m, ct, nt):
     from . import native
     k, n = int(m.get("column_type_variant") or 0), int(m.get("native_type") or 0)
@@ -182,8 +271,9 @@ def run(tier, seed, only):
         except (AttributeError, KeyError, IndexError, TypeError, ValueError) as e:
             ctx.add(name=f"smt:c17_translate_add_value_{n0}_{nj}", engine="smt:mir2smt", status="inconclusive", reason=f"translator failed on the current source ({type(e).__name__}: {e})", functions=FILE)
     try:
-        reg = rustenum.Registry(["/repo/" + RESULT_RS])
+        reg = rustenum.Registry(["/repo/" + RESULT_RS, "/repo/scylla-cql-core/src/value.rs"])
         empty_support(ctx, core, reg)
+        maybe_empty_carrier(ctx, core, reg)
     except mir.Unsupported as e:
         ctx.add(name="smt:c17_translate_empty_support", engine="smt:mir2smt", status="inconclusive", reason="translator rejected the current source: " + str(e), functions=RESULT_RS)
     except (AttributeError, KeyError, IndexError, TypeError, ValueError) as e:
